@@ -257,6 +257,9 @@ class C11(Check):
         cases.append(one([rx(2, B, A), rx(1, A, B)] + [x for _ in range(4) for x in ({"op": "adv", "ms": 9000}, rx(1, A, B), {"op": "sweep", "sw": 0})]
                          + [{"op": "adv", "ms": 3125}, {"op": "sweep", "sw": 0}, rx(1, A, B)]))
         cases.append(one([rx(2, B, A), rx(1, A, B), {"op": "adv", "ms": 60000}, rx(1, A, B), {"op": "sweep", "sw": 0}, rx(1, A, B)]))
+        # a flow kept alive by traffic past its hard timeout while the destination moves (sweep before every frame, as a switch's expiry timer does)
+        for gap, nhit, tail in ((8000, 3, (2000, 2000, 4000)), (6000, 4, (1000, 3000, 3000)), (9000, 3, (1000, 1000, 2000)), (4000, 6, (2000, 2000, 3000))):
+            cases.append(one(self.keepalive(gap, nhit, tail), bufs=2))
         # three switches in a line, hosts at the ends
         net = {"transparent": False, "switches": [{"ports": 3, "bufs": 1}, {"ports": 2, "bufs": 0}, {"ports": 3, "bufs": 2}],
                "links": [[0, 3, 1, 1], [1, 2, 2, 1]],
@@ -278,7 +281,42 @@ class C11(Check):
                 out.append(one([op for i in idx for op in alpha[i]], bufs))
         return out
 
+    def keepalive(self, gap, nhit, tail, move_to=3):
+        """A<->B converse; A->B repeated every `gap` ms `nhit` times; then B shows up on port `move_to`; A->B again after each delay in `tail`"""
+        rx, A, B = self.rx, self.A, self.B
+        sw = {"op": "sweep", "sw": 0}
+        ops = [rx(1, A, B), rx(2, B, A), rx(1, A, B)]
+        for _ in range(nhit):
+            ops += [{"op": "adv", "ms": gap}, sw, rx(1, A, B)]
+        ops += [{"op": "adv", "ms": tail[0]}, sw, rx(move_to, B, BCAST)]
+        for d in tail[1:]:
+            ops += [{"op": "adv", "ms": d}, sw, rx(1, A, B)]
+        return ops
+
+    def random_keepalive(self, rng):
+        """random member of the family above: long-lived conversations with a sweep before every frame, gaps below the idle timeout, a host move"""
+        rx = self.rx
+        hosts = [0x0a, 0x0b, 0x0c][:rng.randint(2, 3)]
+        loc = {h: i + 1 for i, h in enumerate(hosts)}
+        nports = 4
+        ops, t = [], 0
+        for h in hosts:
+            ops.append(rx(loc[h], h, hosts[(hosts.index(h) + 1) % len(hosts)]))
+        total = rng.choice([35000, 45000, 70000])
+        while t < total:
+            d = rng.choice([1000, 2000, 3000, 4000, 6000, 8000, 9000, 9875, rng.randrange(1, 80) * 125])
+            t += d
+            ops += [{"op": "adv", "ms": d}, {"op": "sweep", "sw": 0}]
+            if rng.random() < 0.12:
+                h = rng.choice(hosts); loc[h] = rng.randint(1, nports)
+                ops.append(rx(loc[h], h, rng.choice([BCAST] + hosts)))
+            else:
+                a = rng.choice(hosts[:2]); b = rng.choice([h for h in hosts if h != a])
+                ops.append(rx(loc[a], a, b, key=rng.choice([1, 1, 1, 2])))
+        return {"transparent": False, "switches": [{"ports": nports, "bufs": rng.randint(0, 2)}], "links": [], "ops": ops}
+
     def random_case(self, rng, maxlen=200):
+        if rng.random() < 0.2: return self.random_keepalive(rng)
         nsw = rng.choice([1, 1, 1, 2, 3])
         sws = [{"ports": rng.randint(2, 5), "bufs": rng.randint(0, 4)} for _ in range(nsw)]
         links, used = [], set()
@@ -356,14 +394,26 @@ class C11(Check):
 
     def oracle_ex(self, case, obs):
         """(failure text or None, structural tag).  Per switch: seen[mac] = ports, most recent first (every arrival counts, like a
-        hardware bridge); ctl[mac] = what the most recent arrival from mac that produced a packet-in said."""
+        hardware bridge).  The flow cache of the SPECIFICATION is tracked too (`spec`): an entry exists from the packet-in that must have
+        installed it (idle 10 s / hard 30 s, the same-port drop entry 10 s / 10 s) until the first sweep after one of its timeouts has
+        passed; frames that arrive without a packet-in refresh the idle timer.  "No older cached flow is still installed" is judged
+        against that cache, so a flow that outlives its timeouts and keeps forwarding to an old port is a failure of the property."""
         nsw = len(case["switches"])
         seen = [dict() for _ in range(nsw)]
         via_flow = [dict() for _ in range(nsw)]    # mac -> True when its most recent arrival was forwarded by a cached flow (no packet-in)
+        spec = [dict() for _ in range(nsw)]        # (in_port or 0, src, dst, kind, key) -> [created, touched, idle_ms, hard_ms]
+        now = T0_MS
         if len(obs["steps"]) != len(case["ops"]): return "harness: step count", "harness"
         for op, st in zip(case["ops"], obs["steps"]):
+            if op["op"] == "adv":
+                now += op["ms"]; continue
+            if op["op"] == "sweep":
+                sp = spec[op["sw"]]
+                for k in [k for k, (cr, to, idle, hard) in sp.items() if now - to > idle or now - cr > hard]: del sp[k]
+                continue
             if op["op"] != "rx": continue
             src, dst, et = op["src"], op["dst"], etype_of(op["kind"])
+            hdr = (src, dst, op["kind"], op["key"])
             for a in st["arr"]:
                 si, port = a["sw"], a["port"]
                 nports = case["switches"][si]["ports"]
@@ -372,6 +422,11 @@ class C11(Check):
                     continue
                 ports = [p for p, _ in a["out"]]
                 where = "sw%d port %d %012x->%012x" % (si, port, src, dst)
+                cached = [k for k in ((port,) + hdr, (0,) + hdr) if k in spec[si]]
+                if a["pin"]:
+                    for k in cached: del spec[si][k]                 # the switch had no such entry (any more)
+                else:
+                    for k in cached: spec[si][k][1] = now
                 if not a["pin_ok"]: return "packet-in raised for another switch (%s)" % where, "pin-dpid"
                 if any(not ok for _, ok in a["out"]): return "emitted bytes differ from the frame that arrived (%s)" % where, "bytes"
                 if port in ports: return "frame sent back out its ingress port (%s)" % where, "echo"
@@ -391,11 +446,16 @@ class C11(Check):
                 else:
                     if any(p not in known for p in ports):
                         return "delivered to a port where the destination was never seen (%s): %s, seen %s" % (where, ports, known), "known-not-subset"
+                    want = [] if known[0] == port else [known[0]]
                     if a["pin"]:                               # packet-in <=> no installed flow matched the frame
-                        want = [] if known[0] == port else [known[0]]
                         if ports != want:
                             tag = "fresh:dst-last-seen-through-cached-flow" if via_flow[si].get(dst) else "fresh:other"
                             return "no cached flow, yet not delivered to exactly the most recent port (%s): %s, seen %s" % (where, ports, known), tag
+                        if ports: spec[si][(port,) + hdr] = [now, now, 10000, 30000]
+                        else: spec[si][(0,) + hdr] = [now, now, 10000, 10000]
+                    elif not cached and ports != want:
+                        return ("forwarded by a cached flow that its idle 10 s / hard 30 s timeouts and a sweep should have removed, not to the most "
+                                "recent port (%s): %s, seen %s" % (where, ports, known)), "fresh:cached-flow-outlived-timeout"
                 seen[si].setdefault(src, [])
                 seen[si][src] = [port] + seen[si][src]
                 via_flow[si][src] = (a["pin"] == 0)
